@@ -817,6 +817,10 @@ class FiniteRange(Domain):
     def _map_to_int(self, value) -> int:
         if self._step_internal == 0:
             return 0
+        elif self.cast_int and value in self._values:
+            # Values are rounded after the transform, so the nearest grid point in
+            # the internal domain need not be the one ``value`` was obtained from
+            return self._values.index(value)
         else:
             int_value = np.clip(value, self.lower, self.upper)
             if self.log_scale:
